@@ -11,7 +11,7 @@ from vlib.core import Failure
 PROP = "C09"
 RULE = (
     "a case is (proxy scheme http|https, destination scheme http|https, use_forwarding_for_https, proxy certificate ok | "
-    "untrusted | wrong name, origin certificate ok | untrusted | wrong name, CONNECT reply per attempt 200 | 403 | 407 | 502 | "
+    "untrusted | wrong name, origin certificate ok | untrusted | wrong name, TLS contexts separate | one shared object, each with or without proxy_assert_hostname, CONNECT reply per attempt 200 | 403 | 407 | 502 | "
     "garbage | EOF, proxy_headers none | Proxy-Authorization | + custom, request headers, destination host name | IPv4 | "
     "[IPv6], port default | odd, retries False | default, a sequence of 1-3 requests with the server closing the connection "
     "after chosen responses, optionally a first hop that redirects from an http URL to the https destination). Two "
@@ -95,6 +95,11 @@ def run_case(case) -> list[Failure]:
     w.add_origin(ds, dhost, port, identity=_ident(case["ocert"], dhost) if ds == "https" else None)
     w.add_origin("http", "start.test", 80)
     octx, pctx = nulltls.NullTLSContext("origin"), nulltls.NullTLSContext("proxy")
+    cm = case.get("ctxmode", "separate")
+    if cm not in CTXMODES:
+        raise core.InvalidCase
+    if cm.startswith("shared"):
+        pctx = octx  # one context object for the proxy leg and for the destination inside the tunnel
     ph = PROXY_HEADERS[case["ph"]]
     fails: list[Failure] = []
     tunnel_expected = ds == "https" and not (ps == "https" and fwd)
@@ -102,6 +107,8 @@ def run_case(case) -> list[Failure]:
     outcomes = []
     with fakenet.Net(w) as net:
         kw = {"proxy_headers": dict(ph)} if ph else {}
+        if cm.endswith("pah"):
+            kw["proxy_assert_hostname"] = "proxy.test"  # urllib3 then matches the proxy's name itself (check_hostname goes off on that context)
         if case["retries"] is False:
             kw["retries"] = False
         pm = urllib3.ProxyManager(f"{ps}://proxy.test:3128", ssl_context=octx, proxy_ssl_context=pctx, use_forwarding_for_https=fwd, **kw)
@@ -275,8 +282,19 @@ def _mk(ps, ds, fwd, pcert, ocert, dest, ph, connects, nreq, close_after, via_re
             "close_after": close_after, "via_redirect": via_redirect, "req_headers": req_headers, "retries": retries}
 
 
+CTXMODES = ["separate", "shared", "separate-pah", "shared-pah"]
+
+
 def enum_cases(tier):
     k = 0
+    # https proxy + https destination with the TLS contexts shared / proxy_assert_hostname set, x certificates
+    for cm in CTXMODES[1:]:
+        for fwd in (False, True):
+            for pcert in CERTS:
+                for ocert in CERTS:
+                    for dest in DESTS:
+                        k += 1
+                        yield dict(_mk("https", "https", fwd, pcert, ocert, dest, k % 3, [], 1 + k % 2, [], False, bool(k % 2), (False, None)[k % 2]), ctxmode=cm)
     # the routing truth table x certificates x headers
     for ps, ds, fwd in itertools.product(("http", "https"), ("http", "https"), (False, True)):
         for pcert in (CERTS if ps == "https" else ["ok"]):
@@ -310,7 +328,8 @@ def _hyp():
         _mk, st.sampled_from(["http", "https"]), st.sampled_from(["http", "https", "https"]), st.booleans(), st.sampled_from(["ok", "ok", "ok", "untrusted", "wrongname"]),
         st.sampled_from(["ok", "ok", "ok", "untrusted", "wrongname"]), st.sampled_from(DESTS), st.integers(0, 2), st.lists(st.sampled_from([200, 200, 200, 403, 407, 502, "garbage", "eof"]), max_size=4),
         st.integers(1, 3), st.lists(st.integers(0, 2), max_size=2, unique=True), st.booleans(), st.booleans(), st.sampled_from([False, None]),
-    ).map(lambda c: dict(c, pcert="ok") if c["pscheme"] == "http" else c).map(lambda c: dict(c, ocert="ok") if c["dscheme"] == "http" else c)
+    ).map(lambda c: dict(c, pcert="ok") if c["pscheme"] == "http" else c).map(lambda c: dict(c, ocert="ok") if c["dscheme"] == "http" else c).flatmap(
+        lambda c: st.sampled_from(CTXMODES).map(lambda m: dict(c, ctxmode=m)) if c["pscheme"] == "https" else st.just(c))
 
 
 def shards(tier, seed):
